@@ -12,7 +12,7 @@ import (
 func newFnCtx(g *Global, fn *ssa.Function, con *FuncContract) *fnCtx {
 	c := &fnCtx{g: g, fn: fn, con: con, vals: map[ssa.Value]SymVal{}, out: map[*ssa.BasicBlock]*State{},
 		edge: map[[2]int]string{}, counts: map[string]int{}, comps: map[string]string{}, compDeclared: map[string]bool{},
-		strlits: map[string]string{}, implDone: map[string]bool{}, loopOf: map[*ssa.BasicBlock]*loopInfo{},
+		strlits: map[string]string{}, flags: map[string]string{}, implDone: map[string]bool{}, loopOf: map[*ssa.BasicBlock]*loopInfo{},
 		dbg: map[string][]dbgRef{}, lets: map[string]SymVal{}, paramVals: map[string]SymVal{},
 		unboxDeclared: map[string]bool{}, specFnDeclared: map[string]bool{}, calleeCount: map[string]int{}, assumedUsed: map[string]bool{}}
 	c.fnName = shortFnName(g.funcKey[fn])
@@ -96,6 +96,15 @@ func (c *fnCtx) topoOrder() []*ssa.BasicBlock {
 	return out
 }
 
+func (c *fnCtx) inLoop(b *ssa.BasicBlock) bool {
+	for _, li := range c.loops {
+		if li.body[b] {
+			return true
+		}
+	}
+	return false
+}
+
 func (c *fnCtx) isBackEdge(from, to *ssa.BasicBlock) bool {
 	return to.Dominates(from)
 }
@@ -137,6 +146,15 @@ func (c *fnCtx) run() (err error) {
 	}
 	for _, fv := range fn.FreeVars {
 		c.vals[fv] = c.freshVal(st, fv.Type(), "fv_"+fv.Name())
+	}
+	if c.con != nil {
+		for i, a := range c.con.Aliases {
+			if i < len(fn.Params) {
+				if _, clash := c.paramVals[a]; !clash {
+					c.paramVals[a] = c.vals[fn.Params[i]]
+				}
+			}
+		}
 	}
 	for _, d := range c.g.axioms {
 		if fn.Pkg == nil || d.Pkg != fn.Pkg.Pkg.Path() || c.bv {
@@ -280,7 +298,7 @@ func (c *fnCtx) mergeInto(b *ssa.BasicBlock) *State {
 			for i := len(incs) - 1; i >= 0; i-- {
 				v, ok := incs[i].st.ghost[gk]
 				if !ok {
-					v = "0"
+					v = c.ghostEntry(gk)
 				}
 				if term == "" {
 					term = v
@@ -347,7 +365,7 @@ func (c *fnCtx) mergeInto(b *ssa.BasicBlock) *State {
 			for _, d := range in.st.defers {
 				if _, ok := seen[d.call]; !ok {
 					seen[d.call] = len(st.defers)
-					st.defers = append(st.defers, deferred{flag: "false", call: d.call})
+					st.defers = append(st.defers, deferred{flag: "false", call: d.call, prepaid: d.prepaid})
 				}
 			}
 		}
@@ -444,11 +462,28 @@ func (c *fnCtx) mergeInto(b *ssa.BasicBlock) *State {
 			c.bumpTop(st)
 		}
 	}
+	autoGhost := map[string]string{}
 	for gk := range c.loopGhostMods(li) {
+		mentioned := false
+		for _, inv := range invs {
+			if strings.Contains(inv.Text, gk) {
+				mentioned = true
+			}
+		}
+		pre, ok := st.ghost[gk]
+		if !ok {
+			pre = c.ghostEntry(gk)
+		}
 		n := c.fresh("g")
 		c.declare(n, "Int")
 		st.ghost[gk] = n
+		if !mentioned {
+			// default candidate: the loop is balanced (each iteration releases what it acquires)
+			autoGhost[gk] = pre
+			c.assume(st, sEq(n, pre))
+		}
 	}
+	li.autoGhost = autoGhost
 	for _, inv := range invs {
 		env := c.newEnvAt(st, b)
 		t, err := env.evalBool(inv.Text)
@@ -539,6 +574,24 @@ func (c *fnCtx) checkBackEdge(from, to *ssa.BasicBlock, st *State, ec string) {
 		return
 	}
 	invs := c.invariantsFor(li)
+	// automatic ghost-balance candidates
+	if len(li.autoGhost) > 0 {
+		var ks []string
+		for k := range li.autoGhost {
+			ks = append(ks, k)
+		}
+		sort.Strings(ks)
+		for _, gk := range ks {
+			cur, ok := st.ghost[gk]
+			if !ok {
+				cur = c.ghostEntry(gk)
+			}
+			bst := st.clone()
+			bst.cur = ec
+			c.oblige(bst, fmt.Sprintf("iter-balance:loop%d", li.ordinal), sEq(cur, li.autoGhost[gk]),
+				"each loop iteration releases the iterators it acquires ("+gk+" unchanged across one iteration)", []string{"C06"}, to.Instrs[0].Pos())
+		}
+	}
 	if len(invs) == 0 {
 		return
 	}
@@ -581,6 +634,7 @@ func (c *fnCtx) checkBackEdge(from, to *ssa.BasicBlock, st *State, ec string) {
 
 // finish emits postcondition obligations.
 func (c *fnCtx) finish() {
+	c.balanceObligations()
 	if c.con == nil {
 		return
 	}
@@ -593,6 +647,9 @@ func (c *fnCtx) finish() {
 	var posts []*Obligation
 	var postClauses []Clause
 	for _, e := range c.con.Ensures {
+		if c.con.IfaceKey != "" && strings.Contains(e.Text, "g_") {
+			continue // ghost bookkeeping is definitional for implementations
+		}
 		kind := "post"
 		if e.Label != "" {
 			kind = "post:" + e.Label
@@ -864,4 +921,67 @@ func (c *fnCtx) frameObligations(normal []retSite) {
 		st := r.st.clone()
 		c.oblige(st, "frame", sAnd(goals...), "modifies "+strings.Join(c.con.Modifies, ", ")+" (everything else unchanged)", c.propsFor(nil), r.pos)
 	}
+}
+
+
+// balanceObligations: a function that acquires iterators (ghost g_open changes
+// somewhere in its body) and does not hand one out must release them on every
+// exit: normal returns and explicit panics (after running deferred calls).
+func (c *fnCtx) balanceObligations() {
+	touched := false
+	for _, r := range c.rets {
+		if _, ok := r.st.ghost["g_open"]; ok {
+			touched = true
+		}
+	}
+	if !touched || c.returnsIterator() || c.fn.Parent() != nil {
+		return // closures take part in their parent's protocol
+	}
+	if c.con != nil {
+		for _, e := range c.con.Ensures {
+			if strings.Contains(e.Text, "g_open") {
+				return // stated explicitly
+			}
+		}
+		for _, m := range c.con.Modifies {
+			if m == "g_open" {
+				return
+			}
+		}
+	}
+	g0 := c.ghostEntry("g_open")
+	for _, r := range c.rets {
+		cur, ok := r.st.ghost["g_open"]
+		if !ok {
+			cur = g0
+		}
+		kind := "iter-balance"
+		if r.isPanic {
+			kind = "iter-balance:panic"
+		}
+		st := r.st.clone()
+		c.oblige(st, kind, sEq(cur, g0), "every iterator acquired in this activation is released (Done) on this exit", []string{"C06"}, r.pos)
+	}
+}
+
+func (c *fnCtx) returnsIterator() bool {
+	res := c.fn.Signature.Results()
+	for i := 0; i < res.Len(); i++ {
+		s := res.At(i).Type().String()
+		if strings.Contains(s, "Iterator") || strings.Contains(s, "iter.Seq") {
+			return true
+		}
+	}
+	return false
+}
+
+
+// ghostEntry names the (unconstrained) value of a ghost variable at function entry.
+func (c *fnCtx) ghostEntry(name string) string {
+	n := smtName("ghost0!" + name)
+	if !c.compDeclared[n] {
+		c.compDeclared[n] = true
+		c.declare(n, "Int")
+	}
+	return n
 }
